@@ -1085,6 +1085,61 @@ func builtinSnapshot() (map[string]string, string) {
 	return out, ""
 }
 
+// c16PackageLoader: the entry points that take no options (and the ones given options without a loader) read
+// documents through the package-level spec.PathLoader - the one that is set AT THE TIME OF THE CALL: after it is
+// assigned anew, the next call asks the new loader and returns what that one serves.
+func c16PackageLoader(c *Ctx) {
+	old := spec.PathLoader
+	defer func() { spec.PathLoader = old }()
+	types := []string{"string", "integer", "boolean", "number"}
+	for round := 0; round < c.N(8, 60); round++ {
+		typ := types[round%len(types)]
+		calls := 0
+		spec.PathLoader = func(u string) (json.RawMessage, error) {
+			calls++
+			return json.RawMessage(`{"definitions":{"T":{"type":"` + typ + `","description":"served in round ` + fmt.Sprint(round) + `"}},"responses":{"r":{"description":"round ` + fmt.Sprint(round) + `","schema":{"type":"` + typ + `"}}}}`), nil
+		}
+		entry := []string{"ExpandSchema", "ResolveRefWithBase", "ExpandResponse", "ExpandSchemaWithBasePath", "ExpandSpec"}[c.Intn(5)]
+		var got string
+		var cerr error
+		pan := safely(func() {
+			switch entry {
+			case "ExpandSchema":
+				sch := spec.RefSchema("ext.json#/definitions/T")
+				cerr = spec.ExpandSchema(sch, nil, nil)
+				got = jsonOf(sch)
+			case "ResolveRefWithBase":
+				ref := spec.MustCreateRef("ext.json#/definitions/T")
+				var sch *spec.Schema
+				sch, cerr = spec.ResolveRefWithBase(nil, &ref, &spec.ExpandOptions{RelativeBase: "/c16/pkg/root.json"})
+				got = jsonOf(sch)
+			case "ExpandResponse":
+				resp := spec.ResponseRef("ext.json#/responses/r")
+				cerr = spec.ExpandResponse(resp, "/c16/pkg/root.json")
+				got = jsonOf(resp)
+			case "ExpandSchemaWithBasePath":
+				sch := spec.RefSchema("ext.json#/definitions/T")
+				cerr = spec.ExpandSchemaWithBasePath(sch, nil, &spec.ExpandOptions{RelativeBase: "/c16/pkg/root.json"})
+				got = jsonOf(sch)
+			default:
+				var sw spec.Swagger
+				_ = json.Unmarshal([]byte(`{"swagger":"2.0","info":{"title":"t","version":"1"},"paths":{},"definitions":{"a":{"$ref":"ext.json#/definitions/T"}}}`), &sw)
+				cerr = spec.ExpandSpec(&sw, &spec.ExpandOptions{RelativeBase: "/c16/pkg/root.json"})
+				got = jsonOf(sw.Definitions["a"])
+			}
+		})
+		c.Count(fmt.Sprint("package-loader", round, entry), true)
+		c.Hit("package-loader-reassigned")
+		cs := map[string]interface{}{"history": fmt.Sprintf("round %d of a sequence of calls; before each call spec.PathLoader is assigned a new function serving ext.json with T of another type", round), "entry": entry, "served": typ}
+		switch {
+		case pan != "" || cerr != nil:
+			c.Fail(Failure{Kind: "oracle", Sig: "C16:package-loader", What: fmt.Sprint("the call fails although the package-level loader serves every URL: ", cerr, pan), Case: cs})
+		case calls == 0 || !strings.Contains(got, `"type":"`+typ+`"`) || !strings.Contains(got, fmt.Sprint("round ", round)):
+			c.Fail(Failure{Kind: "oracle", Sig: "C16:package-loader", What: fmt.Sprintf("the call returns %s; the package-level loader set at the time of the call serves type %q (it was called %d times): an earlier loader was remembered", clip(got), typ, calls), Case: cs, Impl: clip(got)})
+		}
+	}
+}
+
 // c16WorkingDirectory: calls made without any location anchor the in-memory root at <cwd>/.root, the working
 // directory being read at the time of the call: after a change of directory the relative references of the next
 // call are requested from the new directory (nothing about the earlier one is remembered).
@@ -1200,6 +1255,7 @@ func c16RootIDs(c *Ctx) {
 func runC16(c *Ctx) {
 	c16WorkingDirectory(c)
 	c16RootIDs(c)
+	c16PackageLoader(c)
 	c.Res.Rule = "random histories (length <= 12 quick / 40 thorough) of public calls made without a caller cache - ExpandSpec (all option combinations), ExpandSchemaWithBasePath, ExpandSchema/ExpandParameterWithRoot/ExpandResponseWithRoot, ResolveRefWithBase, expansions of the two built-in meta-schemas - over a small family of worlds that share document URLs with changed content; oracle: every call's outcome and loader requests (as a set) equal those of the same call made alone in a fresh process, caller options unchanged, built-in meta-schemas resolve without the loader to the embedded assets before and after; non-trivial = call whose world has at least one cross-document reference; distinct by (world, call)"
 	want, msg := builtinSnapshot()
 	if msg != "" {
